@@ -632,9 +632,22 @@ func (t *sseClientTransport) sendRequestInternal(ctx context.Context, req *JSONR
 
 	// In the SSE transport, the response should come via the SSE stream.
 	// So here we just wait for the response on the channel.
+	// The stream context ends when the transport is closed or the event stream is over: pending calls
+	// are woken through it (their channels are never closed, the reader may still be sending on them).
+	t.sseConn.mutex.Lock()
+	streamCtx := t.sseConn.ctx
+	t.sseConn.mutex.Unlock()
+	var streamDone <-chan struct{}
+	if streamCtx != nil {
+		streamDone = streamCtx.Done()
+	}
+
+	// Wait for the response to be received via SSE.
 	select {
 	case <-ctx.Done():
 		return nil, ctx.Err()
+	case <-streamDone:
+		return nil, errors.New("transport is closed")
 	case rawMsg, ok := <-responseChan:
 		if !ok {
 			return nil, errors.New("response channel closed")
@@ -757,10 +770,9 @@ func (t *sseClientTransport) close() error {
 	t.sseConn.mutex.Unlock()
 
 	// Close all response channels.
+	// Pending calls are woken by the cancelled stream context (see sendRequestInternal); their channels
+	// are not closed, because handleResponse sends on them after an unlocked table lookup.
 	t.responsesMu.Lock()
-	for _, ch := range t.responses {
-		close(ch)
-	}
 	t.responses = make(map[string]chan *json.RawMessage)
 	t.responsesMu.Unlock()
 
